@@ -21,10 +21,15 @@ def gen_cases(ctx):
     names += ['a"; DROP TABLE t; --', "x`y`z", 'He said "hi"', '""', "``", '"', "`"]
     extra = 200 if ctx.quick else 3000
     names += [s for s in (gens.rand_string(rng, 10) for _ in range(extra)) if s and "\0" not in s]
+    # long names with a quote character around the engines' name-length limits (63 bytes Postgres, 64 characters
+    # MySQL): a name is never cut, least of all between the two halves of a doubled quote
+    LONG = ["a" * 62 + '"', "a" * 61 + '"b', "a" * 63 + "`", "é" * 31 + '"' + "x", "a" * 64 + '"`' + "b" * 70,
+            '"' * 40, "a" * 130]
+    names += LONG
     lines = []
     for n in names:
-        # every position for the single-character names, a random sample of positions otherwise
-        ps = pos if len(n) == 1 else rng.sample(pos, 6 if ctx.quick else 10)
+        # every position for the single-character names and the long ones, a random sample of positions otherwise
+        ps = pos if (len(n) == 1 or n in LONG) else rng.sample(pos, 6 if ctx.quick else 10)
         for p in ps:
             for b in (["pg"] if p in PG_ONLY else B):
                 lines.append("iden %s %s %s" % (b, p, hexs(n)))
